@@ -145,6 +145,9 @@ func (tr *c17Transport) RoundTrip(req *http.Request) (*http.Response, error) {
 		rc = io.NopCloser(bytes.NewReader(nil))
 	case "malformed":
 		rc = io.NopCloser(bytes.NewReader([]byte(`{"v": 1, "s": `)))
+	case "trailing-data":
+		// a complete JSON value followed by something else (a proxy's error page glued on): not a valid response body
+		rc = io.NopCloser(bytes.NewReader(append(append([]byte{}, body...), []byte(`<html>502 Bad Gateway</html>`)...)))
 	}
 	// like net/http's own transport, the body belongs to the request: once the request's context is
 	// cancelled (or timed out) the connection is gone and reads fail
@@ -244,7 +247,7 @@ func genC17(t *simrt.Tape, tier string) Scenario {
 	if sc.BodyKind != "obj" && sc.BodyKind != "none" && !(sc.Ctor == "PostJSON" || sc.Ctor == "PutJSON" || sc.Ctor == "PatchJSON") {
 		sc.BodyKind = "obj" // the zero-valued bodies (0, "", a zero struct: values like any other) go through the JSON constructors
 	}
-	faults := []string{"none", "none", "none", "serializer", "transport", "torn", "empty", "malformed", "deserializer-nil", "missing-file", "read-error-after-body", "interceptor-error"}
+	faults := []string{"none", "none", "none", "serializer", "transport", "torn", "empty", "malformed", "deserializer-nil", "missing-file", "read-error-after-body", "interceptor-error", "trailing-data"}
 	sc.Fault = faults[t.Choose(len(faults))]
 	sc.TornAt = t.Choose(12)
 	sc.Evals = []int{1, 0, 2, 3}[t.Choose(4)]
@@ -540,7 +543,7 @@ func (sc *c17Scenario) Run(s *simrt.Sim) {
 			add("response", "nil-response", fmt.Sprintf("evaluation %d returned a nil *APIResponse", i))
 			continue
 		}
-		failing := wantSent == 0 || sc.Fault == "transport" || sc.Fault == "torn" || sc.Fault == "empty" || sc.Fault == "malformed" || sc.Fault == "deserializer-nil" || sc.Fault == "read-error-after-body"
+		failing := wantSent == 0 || sc.Fault == "transport" || sc.Fault == "torn" || sc.Fault == "empty" || sc.Fault == "malformed" || sc.Fault == "trailing-data" || sc.Fault == "deserializer-nil" || sc.Fault == "read-error-after-body"
 		if failing {
 			sc.probes["fault-"+sc.Fault]++
 			s.Fault(sc.Fault)
